@@ -426,7 +426,7 @@ def run(ctx, replay=None, proofs_ok=True):
                    "distinct by input; all generated cases count as non-trivial (no degenerate filler)",
            "samples": [cases[0], cases[len(cases) // 2], cases[-1]], "input_distribution": hist,
            "partial": ["C09_triangle_inequality_partial (full triangle inequality not proved; sampled on every metric case)",
-                       "exp o log = id on SO(3) not proved (log o exp = id is); measured on every explog case"],
+                       "exp o log = id is proved for every rotation with angle < pi (C09_exp_log); at exactly pi the logarithm is not unique - measured on every explog case"],
            "disagreements": stats["disagreements"]}
     return {"failures": failures, "coverage": cov}
 
@@ -434,7 +434,7 @@ def run(ctx, replay=None, proofs_ok=True):
 LEVEL_TEXT = ("Coq theorems over R for the model of lie_algebra.py: hat/vee inverse, SE(3)/SO(3) inverse and relative-pose laws, "
               "Sim(3) two-sided inverse and scale recovery, Rodrigues exp is a rotation with angle |v| and log(exp v) = v, "
               "rotation-angle metric range/symmetry/bi-invariance/zero-iff-equal, membership decisions accept group elements and "
-              "reject reflections, scaled blocks and wrong bottom rows. Triangle inequality and exp(log R) = R are NOT proved "
+              "reject reflections, scaled blocks and wrong bottom rows. exp(log R) = R for every rotation with angle < pi; the triangle inequality is NOT proved "
               "(partial, sampled). Tie: differential run of every helper against the model in binary64.")
 LEVEL_NOTE = ("Trusted: Coq kernel/VM, Reals axioms + classic, hand-written model (tested correspondence), scipy/numpy kernels as "
               "oracles whose specs are measured per case; no floating-point error analysis (tolerances).")
